@@ -297,6 +297,10 @@ def body():
                     {"events": evs})
     for key, evs in execs[:1] + execs[-1:]:
         c.sample({"key": key, "events": [json.dumps(e)[:300] for e in evs]})
+    # the command line tools as a user's session (tools/clilib.py, spec/Cli.tla): artefacts made by one tool, opened by another under right and wrong circumstances;
+    # the exit status is what a script sees
+    import clilib
+    clilib.judge_sessions(c, clilib.sessions(c, "C16", ['cms'], "c16", [0, 1, 16, 4095, 4096, 4097, 10000] + ([] if c.quick else [8192, 65537, 1000000])), "c16")
     return c.finish(
         rule="messages: signers 1..4 x recipients 1..4, content lengths %s, content types data and signedData(DER value), signer chains with and without the CA certificate; "
              "per message: every recipient x {raw, DER, PEM} key object, outsider, recipient certificate with another key, zero signer infos, signer key not matching the certificate, "
